@@ -6,10 +6,27 @@ SUF_RUN = "of the RUNNING thread"
 SUF_ACT = "of the ACTIVE thread"
 
 
+_DOCUMENTED = None
+
+
+def documented_modes():
+    """{type: mode} from the Paraver configurations shipped under cfg/thread (golden/track_modes.json):
+    the window name of the view of a type says when its value is shown."""
+    global _DOCUMENTED
+    if _DOCUMENTED is None:
+        import json
+        p = os.path.join(os.path.dirname(os.path.dirname(os.path.abspath(__file__))), "golden", "track_modes.json")
+        _DOCUMENTED = {int(k): v["mode"] for k, v in json.load(open(p)).items()}
+    return _DOCUMENTED
+
+
 def mode_of(pcf, typ):
-    """Tracking mode as *declared* by the emulator in the thread .pcf."""
+    """Tracking mode of a thread quantity: the documented one where a shipped view names it,
+    otherwise the one the emulator declares in the type label of the thread .pcf."""
     if typ >= 100 and typ < 200:
         return "ACT"      # C17 statement: marks show while the thread is active
+    if typ in documented_modes():
+        return documented_modes()[typ]
     lab = pcf.type_label(typ)
     if lab is None:
         return None
